@@ -1456,7 +1456,7 @@ http_set_data(nni_http_entity *entity, const void *data, size_t size)
 static nng_err
 http_alloc_data(nni_http_entity *entity, size_t size)
 {
-	void *newdata;
+	void *newdata = NULL;
 	if (size != 0) {
 		if ((newdata = nni_zalloc(size)) == NULL) {
 			return (NNG_ENOMEM);
@@ -1471,7 +1471,7 @@ static nng_err
 http_copy_data(nni_http_entity *entity, const void *data, size_t size)
 {
 	nng_err rv;
-	if ((rv = http_alloc_data(entity, size)) == 0) {
+	if (((rv = http_alloc_data(entity, size)) == 0) && (size != 0)) {
 		memcpy(entity->data, data, size);
 	}
 	return (rv);
